@@ -331,7 +331,7 @@ class C13:
             con = sqlite3.connect(fn)
             try:
                 ok = con.execute("PRAGMA integrity_check").fetchone()[0]
-                rs = list(con.execute("SELECT inp, tsb FROM xonsh_history ORDER BY tsb"))
+                rs = list(con.execute("SELECT inp, tsb, frequency FROM xonsh_history ORDER BY tsb"))
             finally:
                 con.close()
             return ok, rs
@@ -359,6 +359,14 @@ class C13:
         rec.count("sqlite_syscalls_enumerated", sum(counts.values()))
         points = [(sc, k) for sc, n in counts.items() for k in range(1, n + 1)]
         rng.shuffle(points)
+        # the data-carrying calls first, spread over the operation (first, quartiles, last), then the rest at random
+        spread = []
+        for sc in ("pwrite64", "write", "fsync", "fdatasync"):
+            n = counts.get(sc, 0)
+            for k in sorted({1, n // 4, n // 2, 3 * n // 4, n} - {0}):
+                spread.append((sc, k))
+        rng.shuffle(spread)
+        points = spread[: max(4, case["maxpoints"] * 2 // 3)] + [p for p in points if p not in spread]
         for sc, k in points[: case["maxpoints"]]:
             fresh()
             subprocess.run(["strace", "-f", "-o", "/dev/null", "-e", f"trace={sc}", "-e", f"inject={sc}:signal=SIGKILL:when={k}"] + base, env=env, capture_output=True, timeout=300)
@@ -424,7 +432,7 @@ class C13:
         rng = random.Random(f"{sh['seed']}/C13/{sh['index']}")
         if sh["kind"] == "sqlite":
             for i in harness.budgeted(range(sh["n"]), rec):
-                case = {"kind": "sqlite", "op": ["append", "delete", "erasedups", "gc"][i % 4], "rseed": f"{sh['seed']}/C13/sq/{sh['index']}/{i}", "rows": rng.choice([5, 30]), "maxpoints": 6 if sh["tier"] == "quick" else 40}
+                case = {"kind": "sqlite", "op": ["append", "delete", "erasedups", "gc"][i % 4], "rseed": f"{sh['seed']}/C13/sq/{sh['index']}/{i}", "rows": rng.choice([5, 30]), "maxpoints": 9 if sh["tier"] == "quick" else 40}
                 if i < 1:
                     rec.sample(case, "sqlite")
                 self.run_case(case, rec)
